@@ -1,9 +1,15 @@
 SPECIFICATION Spec
 CONSTANTS
-  MaxAdds = 3
+  MaxAdds = 6
   MaxReads = 4
   Iters = {"i1", "i2"}
   Depth = 9
+  Ops = {"add", "nil", "nstack", "len", "resolve", "open", "read", "addc", "hold"}
+  Kinds = {"fmtw", "stack", "nested"}
+  Sizes = {0, 2}
+  HoldKinds = {"gunwind", "gunwrap"}
+  MaxHolds = 1
+  MaxHeld = 3
 VIEW view
 ACTION_CONSTRAINT EmitEdge
 CHECK_DEADLOCK FALSE
